@@ -102,6 +102,10 @@ fn parse_tree(
     Ok(entries)
 }
 
+/// Compare two tree entries the way git orders them: by name, with a `/`
+/// appended to the name of a directory.  The whole virtual strings are
+/// compared, so this is the order of the keys the Python implementation
+/// sorts by (`name` or `name + b"/"`) for every pair of byte strings.
 fn cmp_with_suffix(a: (u32, &[u8]), b: (u32, &[u8])) -> std::cmp::Ordering {
     let len = std::cmp::min(a.1.len(), b.1.len());
     let cmp = a.1[..len].cmp(&b.1[..len]);
@@ -109,13 +113,17 @@ fn cmp_with_suffix(a: (u32, &[u8]), b: (u32, &[u8])) -> std::cmp::Ordering {
         return cmp;
     }
 
-    let c1 =
-        a.1.get(len)
-            .map_or_else(|| if (a.0 & S_IFMT) == S_IFDIR { b'/' } else { 0 }, |&c| c);
-    let c2 =
-        b.1.get(len)
-            .map_or_else(|| if (b.0 & S_IFMT) == S_IFDIR { b'/' } else { 0 }, |&c| c);
-    c1.cmp(&c2)
+    let suffix = |mode: u32| -> &'static [u8] {
+        if (mode & S_IFMT) == S_IFDIR {
+            b"/"
+        } else {
+            b""
+        }
+    };
+    a.1[len..]
+        .iter()
+        .chain(suffix(a.0))
+        .cmp(b.1[len..].iter().chain(suffix(b.0)))
 }
 
 /// Iterate over a tree entries dictionary.
